@@ -1,0 +1,7 @@
+//go:build !verif
+
+package verifhook
+
+// ID gives a small stable number to an object for instrumentation arguments.
+// No-op (always 0) in production builds.
+func ID(obj any) int64 { return 0 }
